@@ -47,11 +47,11 @@ CLAIMS = {
          "Trusted: zero value of each exported enumeration field is its unknown/invalid constant; v2 IsEmpty() on nil receivers is outside the property's observation list.",
          "DESIGN.md section 6, C12"),
  "C09": ("deterministic sweeps + rapid PBT vs reference token map; permutation / X-vs-omitted metamorphic twins",
-         "Every exported field of every decoded object (read by reflection on the field name) must be the exported constant of the value written for that metric; unwritten v3 optional metrics must be Not Defined, v2 groups must report IsEmpty() correctly; the canonical spelled-out twin and the canonical defined-only twin of every v3 vector must give an identical snapshot (fields, scores, severities, encodings at every level). Sweeps: every metric x code x token position, all 2^14 optional-metric subsets, block moves and group orders, every v2 metric x code x group shape (thorough: all 8! base-token orders of 4 vectors); rapid 320k (C09: 200k) / 3M vectors.",
+         "Every exported field of every decoded object (read by reflection on the field name) must be the exported constant of the value written for that metric; unwritten v3 optional metrics must be Not Defined, v2 groups must report IsEmpty() correctly; the canonical spelled-out twin and the canonical defined-only twin of every v3 vector must give an identical snapshot (fields, scores, severities, encodings at every level). Sweeps: every metric x code x token position, all 2^14 optional-metric subsets, block moves and group orders, every v2 metric x code x group shape (thorough: all 8! base-token orders of 4 vectors); rapid 320k (C09: 200k) / 3M vectors; one sweep vector in five and one rapid case in six is offered to a decoder object that has already decoded another vector (refused = nothing asserted, accepted = checked like any decoded object).",
          "Trusted: reference tokenizer and the name binding of constants; the accepted-vector language itself is C07/C08's subject.",
          "DESIGN.md section 6, C09"),
  "C10": ("deterministic sweeps + rapid PBT vs reference canonical encoder; round-trip",
-         "Encode() must return (canonical text, nil) with the canonical text computed by a reference encoder (v3: prefix, specification order, every optional metric of the object's level spelled out; v2: byte-identical input), String() must equal Encode(), decoding the encoding with the same decoder must give an identical snapshot, and encodings held while other objects are encoded must not change. Same sweeps and rapid budgets as C09.",
+         "Encode() must return (canonical text, nil) with the canonical text computed by a reference encoder (v3: prefix, specification order, every optional metric of the object's level spelled out; v2: byte-identical input), String() must equal Encode(), decoding the encoding with the same decoder must give an identical snapshot, and encodings held while other objects are encoded must not change. Same sweeps, re-used decoder cases and rapid budgets as C09.",
          "Trusted: reference canonical encoder written from the property statement.",
          "DESIGN.md section 6, C10"),
  "C14": ("deterministic sweeps + rapid PBT; differential against independent lower-level decodes of the reference projection",
